@@ -6,7 +6,7 @@
    quantification over h (all interleavings of the keys' rows). No reap step (STATETTL). *)
 From Coq Require Import Permutation.
 From SV Require Import Model.GroupKey Model.Counting Model.NumCarrier Spec.GroupSpec Proofs.GroupKeyProofs Proofs.CountingProofs
-  Proofs.NumCarrierProofs Model.CountingLag Proofs.CountingLagProofs.
+  Proofs.NumCarrierProofs Model.CountingLag Proofs.CountingLagProofs Model.CountingBlock Proofs.CountingBlockProofs.
 
 (* the i-th batch (i = 0, 1, ..) delivered for the key tuple t is exactly rows i*N+1 .. (i+1)*N of
    t's subsequence, in order, and there is an i-th batch only if t has (i+1)*N rows *)
@@ -218,3 +218,75 @@ Example C09_lag_example :
   map (fun b => map krid (snd b)) (lg_taken s) = [[1; 2]; [7; 8]; [9; 10]]%Z
   /\ lg_queue s = [] /\ lg_sent s = 5 /\ lg_dropped s = 0 /\ lg_evicted s = 2.
 Proof. repeat split; reflexivity. Qed.
+
+(* ---- the "block" overflow strategy of the window's output channel (Model/CountingBlock.v: sendResult with
+   strategy block -- room: the batch is enqueued; full for a whole BlockTimeout: the NEW batch is dropped and
+   counted in droppedCount). Schedules as above: [LAdd r] / [LTake]; an [LAdd] that finds the channel full is the
+   timeout. ------------------------------------------------------------------------------------------------ *)
+
+(* one hand-over: the timeout branch needs a full channel. With a free slot the batch is enqueued, sentCount
+   grows by one and droppedCount does not move -- whatever happened before (idle time included) *)
+Theorem C09_block_room_means_sent : forall cap s b, length (lg_queue s) < cap ->
+  lg_queue (blk_send cap s b) = lg_queue s ++ [b]
+  /\ lg_dropped (blk_send cap s b) = lg_dropped s
+  /\ lg_sent (blk_send cap s b) = S (lg_sent s)
+  /\ lg_taken (blk_send cap s b) = lg_taken s.
+Proof. exact blk_send_room. Qed.
+Print Assumptions C09_block_room_means_sent.
+
+(* every schedule, every capacity: received ++ waiting = the window's batch sequence with WHOLE batches removed,
+   order kept; every cut batch is received, waiting or counted in droppedCount; sentCount = received + waiting;
+   nothing is ever removed from the channel *)
+Theorem C09_block_never_merges : forall key n cap sched,
+  let s := blk_run key n cap sched in
+  let B := snd (cw_steps key n [] (lag_adds sched)) in
+  sublist (lg_taken s ++ lg_queue s) B
+  /\ length (lg_taken s) + length (lg_queue s) + lg_dropped s = length B
+  /\ lg_sent s = length (lg_taken s) + length (lg_queue s)
+  /\ length (lg_queue s) <= cap
+  /\ lg_evicted s = 0.
+Proof. exact blk_never_merges. Qed.
+Print Assumptions C09_block_never_merges.
+
+(* droppedCount = 0 => exactly the batch sequence of the theorems above *)
+Theorem C09_block_exact_without_drop : forall key n cap sched,
+  let s := blk_run key n cap sched in
+  lg_dropped s = 0 ->
+  lg_taken s ++ lg_queue s = snd (cw_steps key n [] (lag_adds sched)).
+Proof. exact blk_exact_without_drop. Qed.
+Print Assumptions C09_block_exact_without_drop.
+
+(* a channel that holds the batches of the run: nothing is dropped, whatever the consumer does and whenever *)
+Theorem C09_block_exact_within_capacity : forall key n cap sched,
+  let s := blk_run key n cap sched in
+  length (snd (cw_steps key n [] (lag_adds sched))) <= cap ->
+  lg_dropped s = 0 /\ lg_sent s = length (snd (cw_steps key n [] (lag_adds sched)))
+  /\ lg_taken s ++ lg_queue s = snd (cw_steps key n [] (lag_adds sched)).
+Proof. exact blk_exact_within_capacity. Qed.
+Print Assumptions C09_block_exact_within_capacity.
+
+(* a consumer that receives every batch at once (any capacity >= 1): every batch is delivered, in order *)
+Theorem C09_block_prompt_consumer_exact : forall key n cap rows, 1 <= cap ->
+  let s := blk_run key n cap (blk_prompt rows) in
+  lg_queue s = [] /\ lg_dropped s = 0
+  /\ lg_taken s = snd (cw_steps key n [] rows)
+  /\ lg_sent s = length (snd (cw_steps key n [] rows)).
+Proof. exact blk_prompt_exact. Qed.
+Print Assumptions C09_block_prompt_consumer_exact.
+
+(* per key tuple the received / waiting id lists are N-blocks in increasing order, also after timeouts *)
+Theorem C09_block_blocks_per_key : forall n cap sch sched t, 1 <= n ->
+  Forall (fun r => conforms sch (ktuple_of r)) (lag_adds sched) -> conforms sch t ->
+  let s := blk_run cnt_key n cap sched in
+  sublist (map (map krid) (kbatches_of (tuple_key s_global t) (lg_taken s ++ lg_queue s)))
+          (let ids := map krid (krows_of t (lag_adds sched)) in chunks (length ids) n ids).
+Proof. exact blk_blocks_per_key. Qed.
+Print Assumptions C09_block_blocks_per_key.
+
+(* non-vacuity (and the timeout branch): N = 2, a channel of 2 slots nobody reads while rows 1..10 of one key
+   arrive keeps [1;2] [3;4]; the other three batches are dropped and counted *)
+Example C09_block_example :
+  let s := blk_run cnt_key 2 2 blk_witness in
+  lg_queue s = [] /\ lg_dropped s = 3 /\ lg_evicted s = 0 /\ lg_sent s = 2
+  /\ map (fun b => map krid (snd b)) (lg_taken s) = [[1; 2]; [3; 4]]%Z.
+Proof. exact blk_full_drops_new. Qed.
